@@ -174,6 +174,11 @@ def main():
                     [Fraction(k, 4000) for k in range(0, limit, 7)]
     clock_inputs += [Fraction(rng.randrange(0, 360000 * 10 ** 6), rng.randrange(1, 10 ** 6)) for _ in range(nother)]
     clock_inputs += [Fraction(2 * k + 1, 2000) for k in range(0, 3000)]          # exact ties
+    # carries: just below every kind of field boundary (second, minute, hour, 100 h), at sub-millisecond distances
+    for base in [rng.randrange(1, 360000) for _ in range(300)] + [60 * m for m in range(1, 130)] + [3600 * h for h in range(1, 101)]:
+        for k in (1, 4, 5, 6, 9, 10, 11):
+            clock_inputs.append(Fraction(base) - Fraction(k, 10000))
+            clock_inputs.append(Fraction(base) + Fraction(k, 10000))
     prev = None
     for x in sorted(clock_inputs):
         ct = CT.from_seconds(x)
